@@ -1,9 +1,11 @@
 (* Single entry point of the executable models: function id + argument tree -> result tree. *)
-From PV Require Export Model.ComponentsX.
+From PV Require Export Model.ComponentsX Model.DetectorX.
 
 Definition dispatch (f : Z) (x : sx) : sx :=
   match f with
   | 1 => x_bs x | 2 => x_ps x | 3 => x_wp x | 4 => x_pr x | 5 => x_perm x | 6 => x_check_value x | 7 => x_unit_prod x
   | 10 => x_run_prog x
+  | 800 => x_cond x | 801 => x_detect x | 802 => x_mk_detector x | 803 => x_tree_leaves x
+  | 804 => x_detection_type x | 805 => x_check_heralds x | 806 => x_simulate x | 807 => x_closed x
   | _ => L []
   end%Z.
